@@ -44,6 +44,7 @@ EDGE_SETS = [
     [0.25, 0.5, 0.75, 1.0],     # 3 bins
     [0.25, 0.5, 1.0],           # 2 bins (other bin count)
     [0.25, 0.625, 0.75, 1.0],   # 3 bins, other edges (same count as set 0)
+    [0.25, 0.5000000000000001, 0.75, 1.0],   # set 0 with one edge moved by one ulp (0.5 -> nextafter(0.5, 1))
 ]
 INVALID_EDGES = [[0.5], [0.5, 0.25, 1.0], [0.25, 0.25, 1.0]]
 SCALES = [
@@ -51,7 +52,7 @@ SCALES = [
     dict(rmin=[0.1, 0.5], rmax=[1.0, 4.0], unit="deg"),
     dict(rmin=500.0, rmax=20000.0, unit="kpc"),
 ]
-Z_ON_EDGE = [0.25, 0.5, 0.625, 0.75, 1.0]
+Z_ON_EDGE = [0.25, 0.5, 0.5000000000000001, 0.625, 0.75, 1.0]
 Z_OTHER = [0.125, 0.375, 0.5625, 0.875, 1.25]
 CENTERS = [(30.0, 10.0), (42.0, -5.0), (55.0, 20.0)]
 
@@ -385,10 +386,10 @@ def rand_cfg(rng, near=None):
         if k < 0.4:      # same edges, other closed side
             return dict(edges=near["edges"], closed="left" if near["closed"] == "right" else "right", scales=rng.randrange(3))
         if k < 0.7:      # same number of edges, other edges, same closed side
-            e = {0: 2, 2: 0}.get(near["edges"], near["edges"])
+            e = {0: rng.choice([2, 3]), 2: 0, 3: 0}.get(near["edges"], near["edges"])
             return dict(edges=e, closed=near["closed"], scales=rng.randrange(3))
         return dict(edges=near["edges"], closed=near["closed"], scales=rng.randrange(3))   # identical binning
-    return dict(edges=rng.randrange(3), closed=rng.choice(["left", "right"]), scales=rng.randrange(3))
+    return dict(edges=rng.randrange(len(EDGE_SETS)), closed=rng.choice(["left", "right"]), scales=rng.randrange(3))
 
 
 def rand_measure(rng, near=None):
@@ -435,6 +436,9 @@ def corpus():
         # same number of edges, other edges
         [auto(c(0, "right")), auto(c(2, "right"))],
         [build("X", 2, "left"), build("R", 2, "left"), auto(c(0, "left"))],
+        # edges that differ in the last digit only
+        [auto(c(0, "right")), auto(c(3, "right"))],
+        [auto(c(3, "left")), dict(op="reopen", cat="X"), auto(c(0, "left"))],
         # other bin count, reopenings in between
         [auto(c(0, "left")), dict(op="reopen", cat="X"), dict(op="reopen", cat="R"), auto(c(1, "left"))],
         # roles swapped: binned <-> unbinned
